@@ -184,7 +184,12 @@ impl Encoder<Message<(Response<()>, BodySize)>> for Codec {
             }
 
             Message::Chunk(Some(bytes)) => {
-                self.encoder.encode_chunk(bytes.as_ref(), dst)?;
+                // An empty chunk is not the end of the body; only `Message::Chunk(None)` is. Passing
+                // it on would make the chunked encoder emit its terminator early and silently
+                // drop every later chunk.
+                if !bytes.is_empty() {
+                    self.encoder.encode_chunk(bytes.as_ref(), dst)?;
+                }
             }
 
             Message::Chunk(None) => {
